@@ -57,6 +57,34 @@ func buildBlocks(env *runner.Env) {
 	for i := 0; i < nbig; i++ {
 		blocks = append(blocks, block{"big", i, 0, 0})
 	}
+	nhuge := 1
+	if env.Tier == "thorough" {
+		nhuge = 6
+	}
+	for i := 0; i < nhuge; i++ {
+		blocks = append(blocks, block{"huge", i, 0, 0})
+	}
+}
+
+// hugeUnit is a NAL unit of the given size whose bytes are a pure function of
+// (size, variant): no zero pairs, last byte non-zero (emulation-free), so that
+// a witness can name it by size alone.
+func hugeUnit(size, variant int) []byte {
+	u := make([]byte, size)
+	x := uint64(size)*0x9e3779b97f4a7c15 ^ uint64(variant+1)*0xbf58476d1ce4e5b9
+	for i := range u {
+		x ^= x << 13
+		x ^= x >> 7
+		x ^= x << 17
+		u[i] = byte(x%251) + 1
+		if i%997 == 500 && i+1 < size {
+			u[i] = 0
+		}
+	}
+	if size > 0 {
+		u[0] = []byte{0x65, 0x41, 0x26, 0x02}[variant%4] // avc IDR / non-IDR, hevc IDR_W_RADL / TRAIL_R first header byte
+	}
+	return u
 }
 
 func init() {
@@ -67,7 +95,7 @@ func init() {
 			"grid1: 1 unit, sizes 1..40 x {3,4}-byte start code x buffer offset 0..7; grid2(a): sizes (a,b), b=1..40 x all 4 start-code mixes x 2 offsets; " +
 			"grid3(a,b): sizes (a,b,c), c=1..40 x all 8 mixes (so every start-code alignment mod 8 and every tail length occurs with every mix); " +
 			"grid4: 4 units, three sizes drawn, fourth 1..40 x 16 mixes; random: 50 streams of 1..6 units with sizes from {1..40, around multiples of 8, 41..300, up to 4 KiB} and mix class {all 3, all 4, first 4 rest 3, random}; " +
-			"big: 4 streams of 1..6 units with sizes up to 70 000. Each stream sits at offset 0..7 inside a larger buffer whose guard bytes hold zeros/start-code fragments. " +
+			"big: 4 streams of 1..6 units with sizes up to 70 000; huge (1 block quick, 6 thorough): 2 streams with one unit of 2^24 + {0,-1,1,5,255,2^20} bytes between two small ones, start codes 4-4-4 and 4-3-4. Each stream sits at offset 0..7 inside a larger buffer whose guard bytes hold zeros/start-code fragments. " +
 			"Per stream: hook scanner vs byte-wise reference scan; ConvertByteStreamToNaluSample (in-place and copying branch); ConvertSampleToByteStream; ExtractNalusFromByteStream; GetNalusFromSample; " +
 			"and for AVC and HEVC: FindNaluTypes, FindNaluTypesUpToFirstVideoNALU/Nalu, ContainsNaluType (all type values), IsIDRSample, IsRAPSample, HasParameterSets, GetParameterSets, GetParameterSetsFromByteStream, " +
 			"ExtractNalusOfTypeFromByteStream (all type values, both stopAtVideo), GetFirstAVCVideoNALUFromByteStream. " +
@@ -276,6 +304,20 @@ func run(c *runner.Ctx, idx int) {
 			}
 			one(sizes, genMix(c.Rand, k), c.Rand.Intn(8))
 		}
+	case "huge":
+		// one unit around 2^24 bytes (the size at which a 3-byte quantity overflows), with small neighbours
+		big := (1 << 24) + []int{0, -1, 1, 5, 255, 1 << 20}[b.a%6]
+		for m := 0; m < 2; m++ {
+			units := [][]byte{hugeUnit(2+b.a, 1), hugeUnit(big, b.a), hugeUnit(7, 2)}
+			mix := []int{4, 4, 4}
+			if m == 1 {
+				mix = []int{4, 3, 4}
+			}
+			n++
+			if checkStream(c, units, mix, c.Rand.Intn(8)) {
+				ok++
+			}
+		}
 	case "big":
 		for i := 0; i < 4; i++ {
 			k := 1 + c.Rand.Intn(6)
@@ -304,6 +346,8 @@ type witness struct {
 	Mix   []int    `json:"start_code_lengths"`
 	Off   int      `json:"buffer_offset"`
 	Note  string   `json:"note,omitempty"`
+	// units of more than 1 MiB are not stored: Huge lists (size, variant) of hugeUnit for every unit instead
+	Huge [][2]int `json:"huge_units,omitempty"`
 }
 
 func replay(c *runner.Ctx, detail json.RawMessage) {
@@ -315,6 +359,12 @@ func replay(c *runner.Ctx, detail json.RawMessage) {
 	units := make([][]byte, len(w.Units))
 	for i, h := range w.Units {
 		units[i], _ = hex.DecodeString(h)
+	}
+	if len(w.Huge) > 0 {
+		units = nil
+		for _, h := range w.Huge {
+			units = append(units, hugeUnit(h[0], h[1]))
+		}
 	}
 	checkStream(c, units, w.Mix, w.Off)
 	c.Nontrivial(1)
@@ -355,6 +405,23 @@ type checker struct {
 
 func (k *checker) detail(note string) witness {
 	w := witness{Mix: k.mix, Off: k.off, Note: note}
+	total := 0
+	for _, u := range k.units {
+		total += len(u)
+	}
+	if total > 1<<20 {
+		// huge blocks are built by hugeUnit: recover (size, variant) by regenerating
+		for _, u := range k.units {
+			v := -1
+			for cand := 0; cand < 8 && v < 0; cand++ {
+				if bytes.Equal(hugeUnit(len(u), cand), u) {
+					v = cand
+				}
+			}
+			w.Huge = append(w.Huge, [2]int{len(u), v})
+		}
+		return w
+	}
 	for _, u := range k.units {
 		w.Units = append(w.Units, hex.EncodeToString(u))
 	}
